@@ -3,8 +3,9 @@
 Checker: Apalache (amounts are 64-bit; TLC integers are 32-bit). spec/Precision.tla holds the
 code-shaped converter (big.Int arithmetic, then Int64() = low 64 bits with sign) and the property.
 1. Go harness `irgov c39`: the REAL precision.Fixed8Converter for every target precision 0..18 on
-   boundary values (2^53 range ends, int64 ends, first amounts whose product leaves int64, powers of ten
-   around the factor, negatives) and seeded random values; one record {p, n, tb, tf, rt} per evaluation.
+   boundary values (2^53 range ends, int64 ends, first amounts whose product leaves int64, in-range
+   amounts whose product crosses 2^53 and needs > 53 bits, negative non-multiples of the factor, powers of
+   ten around the factor) and seeded random values; one record {p, n, tb, tf, rt} per evaluation.
 2. Apalache validates every record: outputs = spec function AND the C39 predicate on the recorded
    outputs (generated module PrecisionRecs: one literal application Rec(...) per record).
 3. Apalache checks symbolically, for ALL int64 n and p in 0..18, that the spec function satisfies the
@@ -28,7 +29,7 @@ def run(ck):
         json.dump(json.load(open(ck.replay))["replay"]["in"], open(inp, "w"))
         ck.harness(binp, ["c39replay", inp, path])
     else:
-        ck.harness(binp, ["c39", 21, 19, path] if thorough else ["c39", 8, 2, path])
+        ck.harness(binp, ["c39", 28, 12, path] if thorough else ["c39", 10, 2, path])
     recs = vkit.read_ndjson(path)
     inrange = [r for r in recs if 0 <= r["n"] < 2 ** 53]
     wrapped = [r for r in inrange if r["tb"] < 0 or r["tf"] < 0]
@@ -58,7 +59,7 @@ def run(ck):
 
     # symbolic model: all int64 n, p in 0..18
     def apa(cinit, inv, expect_ok=True):
-        ok, bad, out = ck.apalache("Precision", ["--cinit=" + cinit, "--init=Init", "--next=Next", "--inv=" + inv, "--length=0"], timeout=1500)
+        ok, bad, out = ck.apalache("Precision", ["--cinit=" + cinit, "--init=Init", "--next=Next", "--inv=" + inv, "--length=0"], timeout=3000)
         if expect_ok and not ok:
             raise vkit.Infra("Apalache: %s under %s not proved (model problem, not a verdict)\n%s" % (inv, cinit, vkit.tail(out, 3000)))
         if not expect_ok and not bad:
